@@ -131,7 +131,7 @@ def check(run):
     gap_Y(run, [(big, 2, [0, -2] if deep else [-2])], sweep, 3 if deep else 1, big_m=True)
     gap_Y(run, [(big, 2, [-2, 0] if quick else [-2, 0, 2])], (pole_focus[:5] + gen[:2]) if quick else (pole_focus[:8] + gen[:3]), 1)
     run.assumptions += ["exact arithmetic: sYlm of the model = (-1)^s sqrt((2l+1)/4pi) docD^l_{m,-s} for every ell, spin and unit quaternion (DAll.sYlm_all); exact zeros below |s| for every arithmetic (Routes.sYlm_low_exact_zero); the rounding bound and finiteness at ell>1000 are checked by oracle sampling (no theorem)",
-                        "addition theorem is a consequence of unitarity of D, which is not proved (DESIGN.md §5)"]
+                        "the addition theorem is proved in exact arithmetic for every ell, spin and rotor (HomAll.addition_theorem); its floating-point deviation bound is swept"]
 
 
 def replay(body):
